@@ -53,7 +53,7 @@ pub fn run(args: &[String]) {
     let configs: Vec<(&str, u8, u8)> = vec![
         ("vstore/cache", 0, 1), ("vstore/tiny", 0, 2),
         ("memory/none", 1, 0), ("memory/cache", 1, 1), ("memory/tiny", 1, 2),
-        ("disk/none", 2, 0), ("disk/tiny", 2, 2),
+        ("disk/none", 2, 0), ("disk/tiny", 2, 2), ("disk-overwrite/cache", 3, 1),
     ];
     for r in 0..runs {
         if only.is_some() && only != Some(r) {
